@@ -231,3 +231,21 @@ Proof.
   - intros g0 Hg0. split; lia.
   - intros c Hin. destruct (In_nth _ _ 0 Hin) as [i [Hi Ei]]. unfold get in Hc. rewrite <- Ei, Hc by auto. lia.
 Qed.
+
+(* the values gathered through a label's slice of the indexer are the values of its rows, in row order *)
+Theorem group_values_in_row_order {A} (d : A) (vals : list A) gk counts key_map ng chunks g :
+  (forall g, (g < ng)%nat -> 0 <= out key_map (Z.of_nat g) /\ (outn key_map g < ng)%nat) ->
+  (forall g g', (g < ng)%nat -> (g' < ng)%nat -> outn key_map g = outn key_map g' -> g = g') ->
+  length counts = ng ->
+  (forall g, (g < ng)%nat -> get 0 counts (outn key_map g) = Z.of_nat (length (positions_of g gk None))) ->
+  (forall c, In c counts -> 0 <= c) -> (forall k, In k gk -> k < Z.of_nat ng) ->
+  gk = concat chunks -> (g < ng)%nat ->
+  map (fun i => get d vals (Z.to_nat i))
+      (firstn (length (positions_of g gk None))
+         (skipn (Z.to_nat (psum counts (outn key_map g))) (build_group_sorted_indexer chunks counts key_map None)))
+  = map (get d vals) (positions_of g gk None).
+Proof.
+  intros H1 H2 H3 H4 H5 H6 H7 H8.
+  rewrite (indexer_slice gk counts key_map None ng H1 H2 H3 H4 H5 H6 chunks g H7 H8).
+  rewrite map_map. apply map_ext. intros i. now rewrite Nat2Z.id.
+Qed.
